@@ -21,6 +21,7 @@ import (
 	anndb "github.com/marekgalovic/anndb"
 	"github.com/marekgalovic/anndb/cluster"
 	pb "github.com/marekgalovic/anndb/protobuf"
+	"github.com/marekgalovic/anndb/services"
 	"github.com/marekgalovic/anndb/storage"
 	"github.com/marekgalovic/anndb/storage/raft"
 	uuid "github.com/satori/go.uuid"
@@ -431,6 +432,10 @@ func runC14Restart(c *c14Case, st *stats, idx int, scratch string) {
 			live = append(live[:k], live[k+1:]...)
 		case "snapshot":
 			time.Sleep(20 * time.Millisecond)
+			// clients read the catalogue in the meantime (datasets get / list): that leaves it as it is
+			for _, m := range live {
+				services.NewDatasetManagerServer(dm).Get(context.Background(), &pb.GetDatasetRequest{DatasetId: mustUUID(m.Id).Bytes()})
+			}
 			s := srv.VerifZeroGroup().VerifStatus()
 			if err := srv.VerifZeroGroup().VerifSnapshotNow(s.Applied, 0); err != nil {
 				fail("snapshot: "+err.Error(), "snapshot-error")
